@@ -170,5 +170,12 @@ let run_op (op : string) (args : string list) : string =
     let bytes = bytes_of_hex bs in
     let d = nat_of_int (List.length bytes + 1) in
     (if conforms d v s then "1 " else "0 ") ^ string_of_res hex_of_bytes (schema_skip d s bytes)
+  (* ---- postcard-dyn ---- *)
+  | "dynser", [ sch; j ] ->
+    string_of_dres string_of_dyn_ser_error hex_of_bytes
+      (dyn_ser host_int_to_f64 host_narrow (schema_of_sexp (parse_sexp sch)) (json_of_sexp (parse_sexp j)))
+  | "dynde", [ sch; bs ] ->
+    string_of_dres string_of_dyn_de_error string_of_json
+      (from_slice_dyn host_widen (schema_of_sexp (parse_sexp sch)) (bytes_of_hex bs))
   | _ -> failwith ("unknown op " ^ op)
 
